@@ -70,6 +70,8 @@ CLAIM = dict(
          'Trusted base listed in the evidence file.',
     ref='DESIGN.md section 4, C19')
 
+PROFILES = ('debug', 'release')
+
 def egcd(a, b):
     while b: a, b = b, a % b
     return abs(a)
@@ -202,6 +204,14 @@ def cases(rng, tier):
         out.append(Case('inv', line('inv', a, m), oracle=o_inv(a, m), tag='inv-random'))
     for a, m in [(0, 1), (1, 1), (5, 1), (-1, 1), (0, 5), (7, 7), (-7, 7), (2 ** 64, 2 ** 64 + 1), (-(2 ** 64), 3)]:
         out.append(Case('inv', line('inv', a, m), oracle=o_inv(a, m), tag='inv-edge'))
+    # moduli and arguments at the machine-word boundaries, in both build profiles (a fast path in i64/u64/i128 arithmetic wraps in
+    # release and panics in dev exactly here): m next to 2^31, 2^32, 2^63, 2^64, 2^127, 2^128; a small, next to m, next to +-2^63
+    for e in (31, 32, 63, 64, 127, 128):
+        for dm in (-25, -1, 0, 1, 13):
+            m = 2 ** e + dm
+            for a in (2, 3, 4, 7, m - 1, m - 2, (m + 1) // 2, -3, -(m - 2), 2 ** 63 - 1, -(2 ** 63), 2 ** 62 + 1, rng.randrange(1, m), rng.randrange(1, m)):
+                for prof in ('debug', 'release'):
+                    out.append(Case('inv', line('inv', a, m), oracle=o_inv(a, m), tag='inv-word-boundary', profile=prof))
     # modulus 0 / negative modulus are outside the property; the model must still agree with the code
     for a, m in [(1, 0), (3, 0), (-1, 0), (3, -7), (-3, -7), (2, -4)]:
         out.append(Case('inv', line('inv', a, m), nontrivial=False, tag='inv-outside'))
